@@ -16,6 +16,11 @@ from .values import (Unsupported, Sh, INT, REAL, BOOL, parse_shape, Val, Num, Bo
                      fresh_name, flatten_shape, flatten_val, build_val, leaf_sort, leaf_val)
 
 REPO = os.environ.get("KVC_REPO", "/repo")
+# parallel discharge: with KVC_PAR > 1 every obligation is proved in a forked child (a snapshot of the symbolic state at the moment the
+# obligation arises), at most KVC_PAR at a time per function; SOLVER_SLOTS (set by the driver) bounds the number of proving processes
+# of a whole check.  Verdicts do not feed back into symbolic execution, so deferring them changes nothing but wall time.
+PAR = int(os.environ.get("KVC_PAR", "0") or 0)
+SOLVER_SLOTS = None
 PKG = "kneeliverse"
 SRC = os.path.join(REPO, "src", PKG)
 
@@ -98,7 +103,7 @@ def enum_const(qual, member):
 
 # =============================================================================== obligations
 class Oblig:
-    __slots__ = ("name", "kind", "hyps", "goal", "lineno", "status", "time", "model", "reason", "func", "text", "tag")
+    __slots__ = ("name", "kind", "hyps", "goal", "lineno", "status", "time", "model", "reason", "func", "text", "tag", "smt2_text", "model_args", "model_error")
 
     def __init__(self, name, kind, hyps, goal, lineno, func, text=""):
         self.name = name
@@ -111,6 +116,7 @@ class Oblig:
         self.time = 0.0
         self.model = None
         self.reason = ""
+        self.smt2_text = self.model_args = self.model_error = None
         self.text = text
 
 
@@ -206,6 +212,9 @@ class Ctx:
         self.module, self.fdef = find_function(qual)
         self.obligs = []
         self.cache = {}
+        self.pending = []            # (Oblig, pid, read fd) of obligations being proved in child processes
+        self.dups = []               # (Oblig, index of the identical obligation it copies its verdict from)
+        self.model_value = None      # set by the driver: projection of a counter-model onto a parameter value
         self.budget = budget
         self.pruned = []
         self.trusted = set()
@@ -266,28 +275,117 @@ class Ctx:
         return ok
 
     def _one(self, name, kind, st, goal, node, text):
-        if z3.is_true(goal) or z3.is_true(z3.simplify(goal)):
-            status, dt, model, reason = "discharged", 0.0, None, "trivial"
-            key = None
-        else:
-            key = hashlib.sha1((";".join(sorted(h.sexpr() for h in st.pc)) + "|-" + goal.sexpr()).encode()).hexdigest()
-            if key in self.cache:
-                status, dt, model, reason = self.cache[key]
-                dt = 0.0
-            else:
-                status, dt, model, reason = prove(st.pc, goal, self.budget)
-                self.cache[key] = (status, dt, model, reason)
-                self.solver_time += dt
         cnt = self.oblig_names.get(name, 0)
         self.oblig_names[name] = cnt + 1
-        o = Oblig(name, kind, [] if status == "discharged" else st.pc, goal,
-                  getattr(node, "lineno", 0), self.label, text)
-        o.status, o.time, o.model, o.reason = status, dt, model, reason
+        o = Oblig(name, kind, [], goal, getattr(node, "lineno", 0), self.label, text)
         o.tag = self.cur_tag
+        o.status, o.time, o.model, o.reason = None, 0.0, None, None
         self.obligs.append(o)
-        if os.environ.get("KVC_TRACE"):
-            print("  [%s %.2fs] %s" % (status, dt, name[:140]), flush=True)
+        if z3.is_true(goal) or z3.is_true(z3.simplify(goal)):
+            o.status, o.reason = "discharged", "trivial"
+            return True
+        key = hashlib.sha1((";".join(sorted(h.sexpr() for h in st.pc)) + "|-" + goal.sexpr()).encode()).hexdigest()
+        if key in self.cache:
+            self.dups.append((o, self.cache[key]))
+            self._settle_dups()
+            return True
+        self.cache[key] = len(self.obligs) - 1
+        if PAR > 1 and hasattr(os, "fork"):
+            while len(self.pending) >= PAR:
+                self._collect(self.pending.pop(0))
+            self.pending.append((o,) + self._spawn(st, goal))
+            return True
+        status, dt, model, reason = prove(st.pc, goal, self.budget)
+        self.solver_time += dt
+        o.status, o.time, o.model, o.reason = status, dt, model, reason
+        if status != "discharged":
+            o.hyps = list(st.pc)
+        self._trace(o)
         return status == "discharged"
+
+    def _trace(self, o):
+        if os.environ.get("KVC_TRACE"):
+            print("  [%s %.2fs] %s" % (o.status, o.time, o.name[:140]), flush=True)
+
+    def _spawn(self, st, goal):
+        import pickle
+        r, w = os.pipe()
+        pid = os.fork()
+        if pid == 0:
+            try:
+                os.close(r)
+                try:
+                    import ctypes
+                    ctypes.CDLL("libc.so.6").prctl(1, 9)      # die with the parent (hard limits kill the worker)
+                except Exception:
+                    pass
+                if SOLVER_SLOTS is not None:
+                    SOLVER_SLOTS.acquire()
+                try:
+                    status, dt, model, reason = prove(st.pc, goal, self.budget)
+                finally:
+                    if SOLVER_SLOTS is not None:
+                        SOLVER_SLOTS.release()
+                extra = {}
+                if status != "discharged":
+                    try:
+                        extra["smt2"] = to_smt2(st.pc, goal)
+                    except Exception:
+                        pass
+                    if status == "failed" and model is not None and self.model_value is not None:
+                        try:
+                            extra["model_args"] = {p: self.model_value(model, v) for p, v in self.old_env.items()}
+                        except Exception as e:
+                            extra["model_error"] = str(e)
+                data = pickle.dumps((status, dt, reason, extra))
+            except BaseException as e:
+                data = pickle.dumps(("undecided", 0.0, "discharge process error: %r" % (e,), {}))
+            try:
+                with os.fdopen(w, "wb") as f:
+                    f.write(data)
+            finally:
+                os._exit(0)
+        os.close(w)
+        return pid, r
+
+    def _collect(self, entry):
+        import pickle
+        o, pid, r = entry
+        try:
+            with os.fdopen(r, "rb") as f:
+                data = f.read()
+            status, dt, reason, extra = pickle.loads(data)
+        except Exception as e:
+            status, dt, reason, extra = "undecided", 0.0, "discharge process died: %r" % (e,), {}
+        try:
+            os.waitpid(pid, 0)
+        except Exception:
+            pass
+        o.status, o.time, o.reason = status, dt, reason
+        o.smt2_text = extra.get("smt2")
+        o.model_args = extra.get("model_args")
+        o.model_error = extra.get("model_error")
+        self.solver_time += dt
+        self._trace(o)
+
+    def _settle_dups(self):
+        rest = []
+        for o, idx in self.dups:
+            src = self.obligs[idx]
+            if src.status is None:
+                rest.append((o, idx))
+                continue
+            o.status, o.time, o.model, o.reason = src.status, 0.0, src.model, src.reason
+            o.hyps = src.hyps
+            for a in ("smt2_text", "model_args", "model_error"):
+                setattr(o, a, getattr(src, a))
+        self.dups = rest
+
+    def join(self):
+        """wait for every obligation that is still being proved"""
+        while self.pending:
+            self._collect(self.pending.pop(0))
+        self._settle_dups()
 
     def feasible(self, st, cond):
         s = z3.Solver()
@@ -302,6 +400,12 @@ class Ctx:
 
     # ---------------------------------------------------------------- entry point
     def run(self):
+        try:
+            self._run()
+        finally:
+            self.join()
+
+    def _run(self):
         c = self.contract
         from . import values as _values
         _values.TRANSPARENT[0] = bool(c.get("transparent", False))
@@ -425,7 +529,7 @@ class LemmaCtx(Ctx):
         qual = lemma["context"]
         Ctx.__init__(self, qual, {"params": {}, "spec_funs": lemma.get("spec_funs", {})}, registry, budget=budget, label=name, prop=prop)
 
-    def run(self):
+    def _run(self):
         st = State()
         facts = []
         for v, shs in self.lemma.get("vars", {}).items():
